@@ -398,7 +398,10 @@ type TV struct {
 
 // ReadIter reads through Shard.CreateIterator.
 func (h *H) ReadIter(meas, tags, field string, tmin, tmax int64, asc bool) ([]TV, error) {
-	sh := h.Shard()
+	return h.readFrom(h.Shard(), meas, tags, field, tmin, tmax, asc)
+}
+
+func (h *H) readFrom(sh *tsdb.Shard, meas, tags, field string, tmin, tmax int64, asc bool) ([]TV, error) {
 	mf := sh.MeasurementFields([]byte(meas))
 	if mf == nil {
 		return nil, nil
@@ -1406,4 +1409,101 @@ func (h *H) Step(op string) (out string) {
 		return fmt.Sprintf("files %d", len(h.Files()))
 	}
 	return "bad-op"
+}
+
+// seriesOf lists the series keys a shard's index holds, canonically.
+func (h *H) seriesOf(id uint64) ([]string, error) {
+	sh := h.Store.Shard(id)
+	if sh == nil {
+		return nil, fmt.Errorf("no shard %d", id)
+	}
+	idx, err := sh.Index()
+	if err != nil {
+		return nil, err
+	}
+	sf, err := sh.SeriesFile()
+	if err != nil {
+		return nil, err
+	}
+	is := tsdb.IndexSet{Indexes: []tsdb.Index{idx}, SeriesFile: sf}
+	names, err := is.MeasurementNamesByExpr(nil, nil)
+	if err != nil {
+		return nil, err
+	}
+	var out []string
+	for _, n := range names {
+		keys, err := is.MeasurementSeriesKeysByExpr(n, nil)
+		if err != nil {
+			return nil, err
+		}
+		for _, k := range keys {
+			out = append(out, canonSeries(k))
+		}
+	}
+	sort.Strings(out)
+	return out, nil
+}
+
+// RetentionDelete: what retention enforcement does to a data node's store when shard 1 has
+// expired while the database's other shard (the mirror, which holds every series and is not
+// expired) is, in mode "disabled", switched off as the snapshotter does during an online
+// restore. The expired shard is deleted (or the deletion is refused and must succeed once the
+// other shard is back); whatever the order, the live shard keeps every series and every
+// point, now and after a restart. Needs a mirror configuration.
+func (h *H) RetentionDelete(mode string) string {
+	if !h.Mirror {
+		return "bad-op"
+	}
+	before, err := h.seriesOf(MirrorShardID)
+	if err != nil {
+		return "err:" + strings.ReplaceAll(err.Error(), " ", "_")
+	}
+	if mode == "disabled" {
+		if err := h.Store.SetShardEnabled(MirrorShardID, false); err != nil {
+			return "err:" + strings.ReplaceAll(err.Error(), " ", "_")
+		}
+	}
+	first := h.Store.DeleteShard(ShardID)
+	if mode == "disabled" {
+		if err := h.Store.SetShardEnabled(MirrorShardID, true); err != nil {
+			return "err:" + strings.ReplaceAll(err.Error(), " ", "_")
+		}
+	}
+	if first != nil {
+		// refused: retention tries again at its next check, which must succeed now
+		if err := h.Store.DeleteShard(ShardID); err != nil {
+			return "RETENTION-STUCK the expired shard cannot be deleted: " + strings.ReplaceAll(err.Error(), " ", "_")
+		}
+	}
+	if h.Store.Shard(ShardID) != nil {
+		return "RETENTION-STUCK the expired shard is still there"
+	}
+	check := func(when string) string {
+		after, err := h.seriesOf(MirrorShardID)
+		if err != nil {
+			return "err:" + strings.ReplaceAll(err.Error(), " ", "_")
+		}
+		if strings.Join(after, ",") != strings.Join(before, ",") {
+			return fmt.Sprintf("RETENTION-LOST-SERIES %s: the unexpired shard listed %d series, now %d", when, len(before), len(after))
+		}
+		sh := h.Store.Shard(MirrorShardID)
+		for _, s := range before {
+			meas, tags, _ := strings.Cut(s, "|")
+			tvs, err := h.readFrom(sh, meas, tags, "mirror", MirrorTime, MirrorTime, true)
+			if err != nil || len(tvs) != 1 {
+				return fmt.Sprintf("RETENTION-LOST-DATA %s: series %s of the unexpired shard reads %d points (%v)", when, s, len(tvs), err)
+			}
+		}
+		return ""
+	}
+	if why := check("after the deletion"); why != "" {
+		return why
+	}
+	if err := h.Reopen(); err != nil {
+		return "err:reopen:" + strings.ReplaceAll(err.Error(), " ", "_")
+	}
+	if why := check("after a restart"); why != "" {
+		return why
+	}
+	return "kept " + fmt.Sprint(len(before))
 }
